@@ -46,6 +46,10 @@ def _twice(k):
     return 2.0 * k
 
 
+def _ident(n):
+    return n
+
+
 def plaw(s, k, n):
     return k * s**n
 
@@ -65,6 +69,16 @@ def build(net, n1, n2, pars, ia=False):
         m.add_parameters({"c": c, "k1": k1, "k2": k2})
         m.add_reaction("v1", plaw1, args=["x", "k1"], stoichiometry={"x": -1, "y": 1})
         m.add_reaction("v2", plaw1, args=["y", "k2"], stoichiometry={"y": -1, "x": 1})
+        return m
+    if net == "yield":
+        # a parameter (the yield n) that acts through a computed stoichiometric coefficient only
+        from mxlpy import Derived
+
+        m.add_variables({"x": 1.0, "y": 1.0})
+        m.add_parameters({"c": c, "k1": k1, "k2": k2, "n": 1.5})
+        m.add_reaction("v0", cin, args=["c"], stoichiometry={"x": 1})
+        m.add_reaction("v1", plaw1, args=["x", "k1"], stoichiometry={"x": -1, "y": Derived(fn=_ident, args=["n"])})
+        m.add_reaction("v2", plaw1, args=["y", "k2"], stoichiometry={"y": -1})
         return m
     if net == "chain":
         # with ia: x starts at 2*k1 (an initial assignment over a parameter that is also scanned)
@@ -106,6 +120,10 @@ def generate(tier):
             if mode == "parallel" and tier == "quick" and not (norm and start == "default"):
                 continue
             cases.append({"routine": "response_coefficients", "net": net, "n1": n1, "n2": n2, "pars": list(pars), "normalized": norm, "start": start, "mode": mode})
+    for pars, norm, mode in it.product(rc_pars, (True, False), ("sequential", "parallel")):
+        if mode == "parallel" and tier == "quick" and not norm:
+            continue
+        cases.append({"routine": "response_coefficients", "net": "yield", "n1": 1.0, "n2": 1.0, "pars": list(pars), "normalized": norm, "start": "default", "mode": mode})
     # a closed pair: the steady state depends on the start values in force (the model's own or the supplied ones)
     for pars, norm, start, mode in it.product(rc_pars, (True, False), ("default", "supplied"), ("sequential", "parallel")):
         if mode == "parallel" and tier == "quick" and not norm:
@@ -283,9 +301,17 @@ def check(case):
             names = m.get_variable_names()
             if case["start"] == "supplied":
                 start = dict.fromkeys(names, 3.0)
-            to_scan = ["c", "k1", "k2"] if case["net"] != "closed" else ["k1", "k2"]
+            to_scan = {"closed": ["k1", "k2"], "yield": ["c", "k1", "k2", "n"]}.get(case["net"], ["c", "k1", "k2"])
             got = mca.response_coefficients(m, to_scan=to_scan, variables=start, normalized=norm, parallel=case["mode"] == "parallel", max_workers=2, disable_tqdm=True)
-            if case["net"] == "closed":
+            if case["net"] == "yield":
+                n_ = 1.5
+                xs, ys = c / k1, n_ * c / k2
+                dx = {"c": 1 / k1, "k1": -c / k1**2, "k2": 0.0, "n": 0.0}
+                dy = {"c": n_ / k2, "k1": 0.0, "k2": -n_ * c / k2**2, "n": c / k2}
+                expv = {"x": (xs, dx), "y": (ys, dy)}
+                expf = {"v0": (c, {"c": 1.0, "k1": 0.0, "k2": 0.0, "n": 0.0}), "v1": (c, {"c": 1.0, "k1": 0.0, "k2": 0.0, "n": 0.0}),
+                        "v2": (n_ * c, {"c": n_, "k1": 0.0, "k2": 0.0, "n": c})}
+            elif case["net"] == "closed":
                 tot = 6.0 if start is not None else 1.0  # the total is set by the start values in force
                 s_ = k1 + k2
                 xs, ys = tot * k2 / s_, tot * k1 / s_
@@ -317,7 +343,7 @@ def check(case):
                 dzs = {p: zs / (n2 * jb) * djb[p] - (zs / (n2 * k2) if p == "k2" else 0.0) for p in to_scan}
                 expv = {"x": (xs, dxs), "y": (ys, dys), "z": (zs, dzs)}
                 expf = {"v0": (c, {"c": 1.0, "k1": 0.0, "k2": 0.0}), "v1": (j1, dj1), "v1b": (jb, djb), "v2": (j1, dj1), "v3": (jb, djb)}
-            pv = {"c": c, "k1": k1, "k2": k2}
+            pv = {"c": c, "k1": k1, "k2": k2, "n": 1.5}
             for table, exp_t, what in ((got.variables, expv, "concentration"), (got.fluxes, expf, "flux")):
                 for name, (val, d) in exp_t.items():
                     for p in to_scan:
